@@ -41,6 +41,7 @@ ASSUMPTIONS = [
 ]
 
 EQUAL_SIBLING_SIGNATURE = 'prove_patricia_merkle:links.index:equal-sibling-hashes'
+INDEX_FIRST_SIGNATURE = 'prove_patricia_merkle:link-index-before-branch-path'
 
 # region independent oracle: hashes
 
@@ -221,13 +222,14 @@ def o_lookup(tree, key):
 	return visited, steps
 
 
-def o_trace(visited, steps, cut, by_index=False):
-	"""the nibble string spelled by the first `cut` visited nodes and the links between them"""
+def o_trace(visited, steps, cut, by_index=False, index_first=False):
+	"""the nibble string spelled by the first `cut` visited nodes and the links between them: branch path, then the nibble of the
+	link taken. by_index / index_first reproduce the two recorded defects of the verifier (slot found by `links.index`; slot written
+	before the branch's own path) and are used only to tell a recorded finding from a fresh failure."""
 	trace = []
 	for index in range(cut):
-		trace += list(visited[index][1])
-		if index + 1 < cut:
-			trace.append(steps[index][1 if by_index else 0])
+		link = [steps[index][1 if by_index else 0]] if index + 1 < cut else []
+		trace += (link + list(visited[index][1])) if index_first else (list(visited[index][1]) + link)
 	return trace
 
 
@@ -444,6 +446,13 @@ class Ops:
 			sample = {'request': short, 'implementation': impl_answer, 'model': model_answer}
 			ctx.case(line, sample)
 			if direct_ok is False:
+				if signature is not None:
+					# a recorded finding: registered twice per signature, counted beyond that (the failure list is bounded)
+					ctx.count(f'known-finding:{signature}')
+					if ctx.counters[f'known-finding:{signature}'] > 2:
+						if model_answer is not None and model_answer != impl_answer:
+							ctx.fail('corr', f'model and implementation differ on {short}: model {model_answer}, implementation {impl_answer}', sample)
+						continue
 				ctx.fail('property', f'{what}: implementation gives {impl_answer} on {short}', {
 					'request': line, 'implementation': impl_answer, 'model': model_answer}, signature)
 			elif model_answer is not None and impl_answer is not None and model_answer != impl_answer:
@@ -473,6 +482,24 @@ def attempt(function, *args):
 		return ('ok', function(*args))
 	except (IndexError, AttributeError, ValueError, TypeError, KeyError, AssertionError, OverflowError) as ex:
 		return ('raise', type(ex).__name__)
+
+
+def attempt_bounded(function, *args, seconds=1.0):
+	"""attempt() with a wall-clock bound: the generated codecs may loop (and allocate) for a very long time on a flipped count field;
+	such inputs are skipped, never judged"""
+	import signal
+
+	def on_alarm(_signum, _frame):
+		raise Hang()
+	previous = signal.signal(signal.SIGALRM, on_alarm)
+	signal.setitimer(signal.ITIMER_REAL, seconds)
+	try:
+		return attempt(function, *args)
+	except (Hang, MemoryError):
+		return ('raise', 'Hang')
+	finally:
+		signal.setitimer(signal.ITIMER_REAL, 0)
+		signal.signal(signal.SIGALRM, previous)
 
 
 # region merkle
@@ -683,21 +710,32 @@ def run_patricia(ctx):
 	def prove_line(key, value, nodes, state_hash, roots):
 		return f'prove_patricia {hx(key)} {hx(value)} {fmt_nodes(nodes)} {hx(state_hash)} {fmt_hashes(roots)}'
 
-	def check(label, key, value, nodes, state_hash, roots, expected, what, defect_expected=None):
-		"""expected: the verdict the tree implies (None: correspondence only). defect_expected: what `links.index` makes of it when an
-		earlier sibling carries the same hash; an answer equal to it is the recorded finding, anything else is a fresh failure."""
+	def check(label, key, value, nodes, state_hash, roots, expected, what, defects=None):
+		"""expected: the verdict the tree implies (None: correspondence only). defects: [(signature, verdict the recorded defect
+		predicts)]; an answer equal to such a prediction (and different from `expected`) is that recorded finding, anything else is
+		a fresh failure."""
 		answer = impl_prove(key, value, nodes, state_hash, roots)
 
 		def text(verdict):
 			return 'none' if 'raise' == verdict else f'ok {verdict}'
 		signature = None
-		if expected is not None and defect_expected is not None and defect_expected != expected and answer == text(defect_expected):
-			signature = EQUAL_SIBLING_SIGNATURE
+		if expected is not None and answer != text(expected):
+			for name, predicted in defects or []:
+				if answer == text(predicted):
+					signature = name
+					break
 		ops.add(
 			prove_line(key, value, nodes, state_hash, roots), answer, None if expected is None else answer == text(expected),
 			f'{what} (the tree implies {text(expected)})', signature)
 		ctx.count(f'patricia:{label}:{answer}')
 		return answer
+
+	def defect_predictions(visited, steps, cut, key, value):
+		return [
+			(EQUAL_SIBLING_SIGNATURE, o_implied(visited[:cut], o_trace(visited, steps, cut, by_index=True), key, value)),
+			(INDEX_FIRST_SIGNATURE, o_implied(visited[:cut], o_trace(visited, steps, cut, index_first=True), key, value)),
+			(INDEX_FIRST_SIGNATURE, o_implied(visited[:cut], o_trace(visited, steps, cut, by_index=True, index_first=True), key, value)),
+		]
 
 	# path encoding and node hashes
 	for _ in range(ctx.scale(300, 6000)):
@@ -727,9 +765,10 @@ def run_patricia(ctx):
 			key = tuple(key)
 			visited, steps = o_lookup(tree, key)
 			trace = o_trace(visited, steps, len(visited))
-			index_trace = o_trace(visited, steps, len(visited), by_index=True)
-			if index_trace != trace:
+			if o_trace(visited, steps, len(visited), by_index=True) != trace:
 				ctx.count('patricia:equal-sibling-hash-on-path')
+			if o_trace(visited, steps, len(visited), index_first=True) != trace:
+				ctx.count('patricia:non-empty-branch-path-above-last-node')
 			key_bytes = pack(key)
 			nodes = [o_node(sub) for sub in visited]
 			position = rng.randrange(4)
@@ -741,7 +780,7 @@ def run_patricia(ctx):
 			kind = {1: 'present', 2: 'absent-dead-end', 0x8005: 'absent-mismatch', 0x4001: 'inconclusive', 'raise': 'key-exhausted'}[expected]
 			check(
 				f'{label}:{kind}', key_bytes, leaf_value, nodes, state_hash, roots, expected, f'intact proof of a {kind} key',
-				o_implied(visited, index_trace, key, leaf_value))
+				defect_predictions(visited, steps, len(visited), key, leaf_value))
 			# the specification-side functions of the model on the same tree
 			if ctx.driver and (ctx.thorough or rng.random() < 0.5):
 				lookup = f'ok {hx(last[2])}' if 'L' == last[0] and trace == list(key) else 'none'
@@ -758,7 +797,7 @@ def run_patricia(ctx):
 				check(
 					f'{label}:truncated', key_bytes, leaf_value, nodes[:cut], state_hash, roots,
 					o_implied(visited[:cut], o_trace(visited, steps, cut), key, leaf_value), 'truncated proof (continuing link)',
-					o_implied(visited[:cut], o_trace(visited, steps, cut, by_index=True), key, leaf_value))
+					defect_predictions(visited, steps, cut, key, leaf_value))
 			# single corruptions
 			for _ in range(ctx.scale(3, 8)):
 				corruption = rng.choice(['state-hash', 'roots', 'node-path', 'link', 'leaf-value', 'key', 'drop-middle', 'drop-first'])
@@ -796,6 +835,8 @@ def run_patricia(ctx):
 						expected = VERDICTS['UNANCHORED_PATH_TREE']  # the root node no longer hashes to a subcache root
 					elif 'leaf-value' == corruption:
 						expected = VERDICTS['LEAF_VALUE_MISMATCH']  # tested against the genuine value
+					elif o_wire_hash(changed) in nodes[index - 1][3]:
+						expected = None  # the corrupted node happens to be another genuine child of its parent (small alphabets): correspondence only
 					else:
 						expected = VERDICTS['UNLINKED_NODE']  # the node no longer hashes to a link of its parent (or its child to its link)
 					check(f'{label}:corrupt-{corruption}', key_bytes, leaf_value, bad_nodes, state_hash, roots, expected, f'proof with corrupted {corruption} in node {index}')
@@ -806,7 +847,7 @@ def run_patricia(ctx):
 					bad_key[rng.randrange(len(key))] ^= 1 << rng.randrange(4)
 					check(
 						f'{label}:other-key', pack(bad_key), leaf_value, nodes, state_hash, roots, o_implied(visited, trace, bad_key, leaf_value),
-						'proof presented for another key', o_implied(visited, index_trace, bad_key, leaf_value))
+						'proof presented for another key', defect_predictions(visited, steps, len(visited), bad_key, leaf_value))
 				elif 'drop-middle' == corruption:
 					if len(nodes) < 3:
 						continue
@@ -1032,7 +1073,7 @@ def run_symbol_transactions(ctx):
 			if is_aggregate and covered_end < len(buffer):
 				for _ in range(ctx.scale(2, 6)):
 					bit = rng.randrange(8 * covered_end, 8 * len(buffer))
-					result = attempt(facade.transaction_factory.deserialize, flip(buffer, bit))
+					result = attempt_bounded(facade.transaction_factory.deserialize, flip(buffer, bit))
 					if 'ok' != result[0]:
 						ctx.count('tx:symbol:flip-tail-object:unparseable')
 						continue
@@ -1063,6 +1104,7 @@ def run_symbol_transactions(ctx):
 
 def run_nem_transactions(ctx):
 	# pylint: disable=too-many-locals
+	from symbolchain import nc
 	from symbolchain.CryptoTypes import PrivateKey
 	from symbolchain.facade.NemFacade import NemFacade
 	from symbolchain.nem.TransactionFactory import TransactionFactory
@@ -1090,7 +1132,16 @@ def run_nem_transactions(ctx):
 		for _ in range(ctx.scale(4, 40)):
 			inner_descriptor = rng.choice([descriptor for descriptor in descriptors if not descriptor['type'].startswith('cosignature')])
 			inner = TransactionFactory.to_non_verifiable_transaction(facade.transaction_factory.create(common(inner_descriptor)))
-			transactions.append(('multisig_transaction_v1', facade.transaction_factory.create(common({'type': 'multisig_transaction_v1', 'inner_transaction': inner}))))
+			cosignatures = [{'cosignature': {
+				'type': 'cosignature_v1', 'network': facade.network.identifier, 'timestamp': rng.boundary_int(32), 'fee': rng.boundary_int(64),
+				'deadline': rng.boundary_int(32), 'signer_public_key': rng.choice(key_pairs).public_key, 'signature': nc.Signature(rng.bytes_(64)),
+				'other_transaction_hash': rng.bytes_(32).hex().upper(), 'multisig_account_address': str(facade.network.public_key_to_address(key_pairs[0].public_key))
+			}} for _ in range(rng.choice([0, 1, 2]))]
+			for descriptor in cosignatures:
+				del descriptor['cosignature']['type']
+			transactions.append(('multisig_transaction_v1', facade.transaction_factory.create(common({
+				'type': 'multisig_transaction_v1', 'inner_transaction': inner, 'cosignatures': cosignatures}))))
+			ctx.count(f'tx:nem:multisig-cosignatures:{len(cosignatures)}')
 		for name, transaction in transactions:
 			signer = next(pair for pair in key_pairs if pair.public_key.bytes == transaction.signer_public_key.bytes)
 			signature = facade.sign_transaction(signer, transaction)
@@ -1098,32 +1149,46 @@ def run_nem_transactions(ctx):
 			buffer = transaction.serialize()
 			impl_hash = facade.hash_transaction(transaction).bytes
 			non_verifiable = TransactionFactory.to_non_verifiable_transaction(transaction).serialize()
+			# the non-verifiable form drops the signature field (size + 64 bytes at offset 48); a multisig wrapper also drops its trailing
+			# cosignature section (count + cosignatures), which is therefore not covered either
+			is_multisig = name.startswith('multisig_transaction')
 			stripped = buffer[:48] + buffer[116:]
-			direct = impl_hash == keccak256(stripped) and non_verifiable == stripped and buffer[52:116] == signature.bytes
-			ops.add(f'nem_hash_serialized {hx(buffer)}', hx(impl_hash), direct, f'{name}: hash is not Keccak-256 of the serialization without the signature field')
-			ops.add(f'nem_hash {hx(non_verifiable)}', hx(impl_hash), impl_hash == keccak256(non_verifiable), f'{name}: hash is not Keccak-256 of the non-verifiable serialization')
-			ops.add(f'nem_non_verifiable {hx(buffer)}', hx(non_verifiable), None, 'non-verifiable serialization')
+			covered_end = 116 + len(non_verifiable) - 48
+			direct = impl_hash == keccak256(non_verifiable) and buffer[52:116] == signature.bytes
+			direct = direct and (stripped[:len(non_verifiable)] == non_verifiable if is_multisig else stripped == non_verifiable)
+			if is_multisig:
+				ctx.count('tx:nem:multisig-uncovered-tail-bytes', len(stripped) - len(non_verifiable))
+			if is_multisig:
+				ops.add(f'nem_hash {hx(non_verifiable)}', hx(impl_hash), direct, f'{name}: hash is not Keccak-256 of the non-verifiable serialization (wrapper without signature and cosignatures)')
+			else:
+				ops.add(f'nem_hash_serialized {hx(buffer)}', hx(impl_hash), direct, f'{name}: hash is not Keccak-256 of the serialization without the signature field')
+				ops.add(f'nem_hash {hx(non_verifiable)}', hx(impl_hash), impl_hash == keccak256(non_verifiable), f'{name}: hash is not Keccak-256 of the non-verifiable serialization')
+				ops.add(f'nem_non_verifiable {hx(buffer)}', hx(non_verifiable), None, 'non-verifiable serialization')
 			if not facade.verify_transaction(transaction, signature):
 				ctx.fail('property', f'{name}: signature over the non-verifiable serialization does not verify', {'transaction': buffer})
 			ctx.count(f'tx:nem:{name}')
 			# flips through real objects: signature bits are not covered, every other bit that still parses is
 			for _ in range(ctx.scale(6, 20)):
 				bit = rng.randrange(8 * len(buffer))
-				covered = not 48 <= bit // 8 < 116
+				covered = not 48 <= bit // 8 < 116 and bit // 8 < covered_end
 				changed = flip(buffer, bit)
-				result = attempt(lambda: facade.transaction_factory.deserialize(changed))  # pylint: disable=cell-var-from-loop
+				result = attempt_bounded(lambda: facade.transaction_factory.deserialize(changed))  # pylint: disable=cell-var-from-loop
 				if 'ok' != result[0]:
 					ctx.count('tx:nem:flip:unparseable')
 					continue
-				result2 = attempt(lambda: (result[1].serialize(), facade.hash_transaction(result[1]).bytes))  # pylint: disable=cell-var-from-loop
+				result2 = attempt(lambda: (result[1].serialize(), facade.hash_transaction(result[1]).bytes, TransactionFactory.to_non_verifiable_transaction(result[1]).serialize()))  # pylint: disable=cell-var-from-loop
 				if 'ok' != result2[0] or result2[1][0] != changed:
 					ctx.count('tx:nem:flip:unparseable')
 					continue
 				new_hash = result2[1][1]
-				direct = new_hash == keccak256(changed[:48] + changed[116:]) and (new_hash != impl_hash) == covered
-				ops.add(
-					f'nem_hash_serialized {hx(changed)}', hx(new_hash), direct,
-					f'{name}: flipping bit {bit} ({"covered" if covered else "signature field, not covered"}) ' + ('left the hash unchanged' if covered else 'changed the hash'))
+				direct = new_hash == keccak256(result2[1][2]) and (new_hash != impl_hash) == covered
+				what = f'{name}: flipping bit {bit} ({"covered" if covered else "signature/cosignature section, not covered"}) ' + ('left the hash unchanged' if covered else 'changed the hash')
+				if is_multisig:
+					direct = direct and result2[1][2] == (changed[:48] + changed[116:])[:len(result2[1][2])]
+					ops.add(f'nem_hash {hx(result2[1][2])}', hx(new_hash), direct, what)
+				else:
+					direct = direct and result2[1][2] == changed[:48] + changed[116:]
+					ops.add(f'nem_hash_serialized {hx(changed)}', hx(new_hash), direct, what)
 				ctx.count('tx:nem:flip:' + ('covered' if covered else 'signature'))
 		ops.settle()
 
@@ -1144,15 +1209,138 @@ def run(ctx):
 	run_nem_transactions(ctx)
 
 
+def unhx(text):
+	return b'' if '-' == text else bytes.fromhex(text)
+
+
+def parse_hashes(text):
+	return [] if '-' == text else [unhx(item) for item in text.split(',')]
+
+
+def parse_path(text):
+	return [] if '-' == text else [(unhx(item.split(':')[0]), 'L' == item.split(':')[1]) for item in text.split(',')]
+
+
+def parse_nodes(text):
+	nodes = []
+	for item in ([] if '-' == text else text.split(';')):
+		kind, path, size, tail = item.split(':')
+		if 'L' == kind:
+			nodes.append(('L', unhx(path), int(size), unhx(tail)))
+		else:
+			nodes.append(('B', unhx(path), int(size), [] if '~' == tail else [None if '_' == link else unhx(link) for link in tail.split('/')]))
+	return nodes
+
+
+def evaluate_request(line):
+	"""runs one recorded driver request on the real implementation and on the harness oracle.
+	Returns (implementation answer, oracle answer or None when the expectation is not a function of the request alone)."""
+	# pylint: disable=too-many-locals,too-many-return-statements,too-many-branches,too-many-statements
+	from symbolchain.CryptoTypes import Hash256
+	from symbolchain.symbol import Merkle
+
+	op, *args = line.split(' ')
+	if op in ('merkle_build', 'merkle_root', 'merkle_state'):
+		leaves = parse_hashes(args[0])
+		builder = Merkle.MerkleHashBuilder()
+		for leaf in leaves:
+			builder.update(Hash256(leaf))
+		root = builder.final().bytes
+		if 'merkle_state' == op:
+			return fmt_hashes(builder.hashes), None
+		return hx(root), hx(o_root(leaves))
+	if 'prove_merkle' == op:
+		leaf, path, root = unhx(args[0]), parse_path(args[1]), unhx(args[2])
+		verdict = Merkle.prove_merkle(Hash256(leaf), [Merkle.MerklePart(Hash256(part), is_left) for part, is_left in path], Hash256(root))
+		return ('true' if verdict else 'false'), ('true' if o_fold(leaf, path) == root else 'false')
+	if 'audit_path' == op:
+		leaves = parse_hashes(args[0])
+		return fmt_path(o_path(o_levels(leaves), int(args[1]))), None
+	if 'encode_path' == op:
+		packed, size, is_leaf = unhx(args[0]), int(args[1]), '0' != args[2]
+		result = attempt(Merkle._encode_path, Merkle.PatriciaTreePath(packed, size), is_leaf)  # pylint: disable=protected-access
+		oracle = f'ok {hx(o_encode(key_nibbles(packed)[:size], is_leaf))}' if 2 * len(packed) >= size else 'none'
+		return (f'ok {hx(result[1])}' if 'ok' == result[0] else 'none'), oracle
+	if 'deserialize' == op:
+		buffer = unhx(args[0])
+		holder = Ops(type('C', (), {'count': lambda *_: None, 'notes': []})())
+		deserialize_case(holder.ctx, holder, buffer, None, Merkle.deserialize_patricia_tree_nodes, 'replay')
+		oracle = o_deserialize(buffer)
+		return holder.items[0][1], ('ok ' + fmt_nodes(oracle[1]) if 'ok' == oracle[0] else oracle[0])
+	if 'prove_patricia' == op:
+		key, value, nodes, state_hash, roots = unhx(args[0]), unhx(args[1]), parse_nodes(args[2]), unhx(args[3]), parse_hashes(args[4])
+
+		def impl_node(node):
+			if 'L' == node[0]:
+				return Merkle.LeafNode(Merkle.PatriciaTreePath(node[1], node[2]), Hash256(node[3]) if 32 == len(node[3]) else ByteKey(node[3]))
+			return Merkle.BranchNode(Merkle.PatriciaTreePath(node[1], node[2]), [None if link is None else Hash256(link) for link in node[3]])
+		result = attempt(
+			Merkle.prove_patricia_merkle, Hash256(key) if 32 == len(key) else ByteKey(key), Hash256(value), [impl_node(node) for node in nodes],
+			Hash256(state_hash), [Hash256(root) for root in roots])
+		return (f'ok {result[1].value}' if 'ok' == result[0] else 'none'), None
+	if op in ('symbol_hash', 'symbol_hash_serialized', 'signing_payload', 'symbol_window'):
+		from symbolchain.facade.SymbolFacade import SymbolFacade
+		if 'symbol_window' == op:
+			buffer = unhx(args[0])
+			result = attempt(SymbolFacade._transaction_data_buffer, buffer)  # pylint: disable=protected-access
+			return (f'ok {hx(result[1])}' if 'ok' == result[0] else 'none'), (f'ok {hx(symbol_window(buffer))}' if len(buffer) >= 112 else 'none')
+		seed = unhx(args[2] if 'symbol_hash' == op else args[0])
+		facade = next((SymbolFacade(name) for name in ('testnet', 'mainnet') if SymbolFacade(name).network.generation_hash_seed.bytes == seed), None)
+		if facade is None:
+			return None, None
+		buffer = unhx(args[-1])
+		if 'signing_payload' == op:
+			result = attempt(facade.extract_signing_payload, FakeTransaction(buffer, bytes(64), bytes(32)))
+			return (f'ok {hx(result[1])}' if 'ok' == result[0] else 'none'), (f'ok {hx(seed + symbol_window(buffer))}' if len(buffer) >= 112 else 'none')
+		signature, signer = (unhx(args[0]), unhx(args[1])) if 'symbol_hash' == op else (buffer[8:72], buffer[72:104])
+		if 64 != len(signature) or 32 != len(signer):
+			return None, None
+		result = attempt(facade.hash_transaction, FakeTransaction(buffer, signature, signer))
+		oracle = f'ok {hx(sha3(signature + signer + seed + symbol_window(buffer)))}' if len(buffer) >= 112 else 'none'
+		return (f'ok {hx(result[1].bytes)}' if 'ok' == result[0] else 'none'), oracle
+	if 'embedded_hash' == op:
+		from symbolchain.facade.SymbolFacade import SymbolFacade
+		buffers = parse_hashes(args[0])
+		result = SymbolFacade.hash_embedded_transactions([FakeTransaction(buffer, bytes(64), bytes(32)) for buffer in buffers])
+		return hx(result.bytes), hx(o_root([sha3(buffer) for buffer in buffers]))
+	if op in ('nem_hash', 'nem_hash_serialized', 'nem_non_verifiable'):
+		from symbolchain import nc
+		from symbolchain.facade.NemFacade import NemFacade
+		from symbolchain.nem.TransactionFactory import TransactionFactory
+		buffer = unhx(args[0])
+		factory = nc.NonVerifiableTransactionFactory if 'nem_hash' == op else nc.TransactionFactory
+		result = attempt_bounded(factory.deserialize, buffer)
+		if 'ok' != result[0]:
+			return None, None
+		if 'nem_non_verifiable' == op:
+			return hx(TransactionFactory.to_non_verifiable_transaction(result[1]).serialize()), hx(buffer[:48] + buffer[116:])
+		return hx(NemFacade.hash_transaction(result[1]).bytes), hx(keccak256(buffer if 'nem_hash' == op else buffer[:48] + buffer[116:]))
+	return None, None
+
+
 def replay(ctx, payload):
-	"""re-runs the recorded request on the implementation-independent parts (model and oracle) and the whole check with the recorded seed"""
-	print(payload.get('what', ''))
+	"""re-runs the recorded request on the real implementation, the oracle and the model; the failure is reported again while the
+	implementation still gives the recorded failing answer (or still disagrees with the oracle). Cases that were not a single request
+	(or cannot be rebuilt from it) re-run the whole check with the recorded seed and tier."""
+	print(payload.get('what', '')[:600])
 	case = payload.get('case') or {}
 	request = case.get('request') if isinstance(case, dict) else None
-	if request and ctx.driver:
-		print('request:', request[:300])
-		print('recorded implementation answer:', case.get('implementation'))
-		print('model answer now:', ctx.driver.ask(request) if len(request) < 60000 else ask_batched(ctx.driver, [request])[0])
+	if request:
+		now, oracle = evaluate_request(request)
+		if now is not None:
+			model = ask_batched(ctx.driver, [request])[0] if ctx.driver else None
+			print('request:', request[:300] + (' ...' if len(request) > 300 else ''))
+			print('implementation, recorded:', case.get('implementation'))
+			print('implementation, now     :', now)
+			print('oracle (definition)     :', oracle if oracle is not None else '(the verdict the tree implies; see the description above)')
+			print('model, now              :', model)
+			ctx.case(request, {'request': request[:700], 'implementation': now, 'model': model})
+			still = (oracle is not None and now != oracle) or (oracle is None and 'property' == payload.get('kind') and now == case.get('implementation'))
+			if still:
+				ctx.fail('property', f'replayed case still fails: implementation gives {now} on {request[:300]}', {'request': request, 'implementation': now, 'model': model})
+			elif model is not None and model != now:
+				ctx.fail('corr', f'model and implementation differ on the replayed request: model {model}, implementation {now}', {'request': request})
+			return
 	ctx.rng = type(ctx.rng)(f'{ctx.prop}:{payload.get("seed", ctx.seed)}')
 	if 'thorough' == payload.get('tier'):
 		ctx.search_mode = True
